@@ -31,7 +31,13 @@ Inductive init_out := InitOk | InitRaise (ty : bytes) | InitPanic | InitNil.
 (* ---- faults injected by the proxy, one per POST -------------------------- *)
 Inductive net := NetOk | NetBefore | NetAfter.
 Inductive encf := EncKeep | EncUnknown | EncBad.
-Inductive bodyf := BKeep | BGarbage | BEmpty | BTrunc | BTrailing | BDropCur | BStrip | BDrift.
+(* BTrunc: cut inside a message (a declared length now exceeds what is left);
+   BTruncHead: cut so that only 1..3 bytes of the last message remain (nothing
+   oversized is declared); BTrailing: a tail the framing guard accepts (shorter
+   than a length word, or a further end-of-stream marker); BTrailBig: a tail whose
+   first word declares more bytes than remain. *)
+Inductive bodyf := BKeep | BGarbage | BEmpty | BTrunc | BTrailing | BDropCur | BStrip | BDrift
+                 | BTruncHead | BTrailBig.
 Record fault := { f_net : net; f_status : Z; f_over : bool; f_enc : encf;
                   f_body : bodyf; f_errhdr : bool }.
 Definition no_fault : fault :=
@@ -141,10 +147,11 @@ Definition edit (b : bodyf) (sr : sresp) : cbody :=
   match b with
   | BKeep => CStream (sr_ok sr) (sr_frames sr) TClean
   | BGarbage | BEmpty => CGarbage
-  | BTrunc => match sr_frames sr with
-              | [] => CGarbage
-              | _ => CStream (sr_ok sr) (removelast (sr_frames sr)) TTrunc
-              end
+  | BTrunc | BTrailBig => CGarbage   (* refused by checkResponseFraming before any batch is read *)
+  | BTruncHead => match sr_frames sr with
+                  | [] => CGarbage
+                  | _ => CStream (sr_ok sr) (removelast (sr_frames sr)) TTrunc
+                  end
   | BTrailing => CStream (sr_ok sr) (sr_frames sr) TTrailing
   | BDropCur => CStream (sr_ok sr) (filter (fun f => negb (has_cur f)) (sr_frames sr)) TClean
   | BStrip => CStream (sr_ok sr) (map strip_tok (sr_frames sr)) TClean
@@ -437,6 +444,7 @@ Definition encf_eqb (a b : encf) : bool :=
 Definition bodyf_eqb (a b : bodyf) : bool :=
   match a, b with
   | BKeep, BKeep | BGarbage, BGarbage | BEmpty, BEmpty | BTrunc, BTrunc | BTrailing, BTrailing
+  | BTruncHead, BTruncHead | BTrailBig, BTrailBig
   | BDropCur, BDropCur | BStrip, BStrip | BDrift, BDrift => true
   | _, _ => false
   end.
